@@ -55,6 +55,8 @@ package parser
 //@   nilok env
 //@   requires r != nil
 //@   ensures result != nil
+//@   ensures[C07 C01] tokens-are-handed-over-one-at-a-time: chancap(result.token) == 0
+//@   ensures[C01 C08] one-pending-notification-for-here-documents: chancap(result.heredoc.c) == 1
 
 //@ func (*lexer).Lex
 //@   requires lval != nil
